@@ -181,6 +181,9 @@ func (s *engineSuite) do(t []string) string {
 		}
 		delete(s.open, t[1])
 		err := ob.b.Commit(ctx)
+		if theAbandon != nil {
+			theAbandon.setStorm(0, nil) // a storm is for one commit
+		}
 		for _, it := range ob.its {
 			it.Close()
 		}
@@ -197,6 +200,25 @@ func (s *engineSuite) do(t []string) string {
 			}
 			return commitLine(b.Commit(actx))
 		})
+	case "storm":
+		// storm <n> <ops…> (cfg rpcfault=abandon, TiKV): before each of the first n PREWRITE RPCs of the next `bcommit`
+		// reaches the cluster, a writer of <ops> is abandoned (as by `abandon`): the transaction that is about to
+		// prewrite - begun by `bbegin`, or re-begun by Commit's own loop - meets a rollback record newer than itself
+		// at every one of these attempts
+		if theAbandon == nil {
+			return "storm no-rpcfault"
+		}
+		aops := append([]string{}, t[2:]...)
+		theAbandon.setStorm(atoi(t[1]), func() {
+			abandonRun(func(actx context.Context) string {
+				b := s.kv.BeginBatchWrite()
+				for _, it := range s.fillBatch(b, aops) {
+					defer it.Close()
+				}
+				return commitLine(b.Commit(actx))
+			})
+		})
+		return "storm ok"
 	case "astart":
 		// astart <ops…> (cfg rpcfault=abandon, TiKV): a writer whose COMMIT RPC is slow - nothing fails, nothing is
 		// cancelled. Returns when its prewrite is done (locks placed) and its commit RPC is being held. After TiKV's
